@@ -78,7 +78,7 @@ def e2e_history(idx, kind, spec, seed, grog, harness, base, findings):
                 cls = None
                 if "which is not in cas" in pr:
                     d = pr.split(" which is not in cas")[0].split()[-1]
-                    # guard of C08_no_dangling_partial, evaluated on this history: the blob was in the
+                    # class of finding C08-F1 (repaired), evaluated on this history: the blob was in the
                     # writer's local cache but not in the remote before the build that uploaded the result
                     if d in a_local_before and d not in remote_before:
                         cls = "local-only-blob-dangling"
@@ -138,6 +138,13 @@ def e2e_history(idx, kind, spec, seed, grog, harness, base, findings):
             bad("machine A's successful build wrote results %s that are not in the remote afterwards" % sorted(not_mirrored))
         remote_complete = not dangling and local_targets(rootA, ws) <= remote_targets(objsA) and local_cas(rootA, ws) <= remote_cas(objsA)
         res["stats"]["remote_complete"] = remote_complete
+        # blobs that were in A's local cache only before the build under test (C08-F1's situation), and how many of them the
+        # build uploaded; what A's local cache holds that the remote still lacks (results of targets that were local cache hits)
+        lonly = a_local_before - remote_before
+        res["stats"]["local_only_before"] = len(lonly)
+        res["stats"]["local_only_uploaded"] = len(lonly & remote_cas(objsA))
+        res["stats"]["unmirrored_results"] = len(local_targets(rootA, ws) - remote_targets(objsA))
+        res["stats"]["unmirrored_blobs"] = len(local_cas(rootA, ws) - remote_cas(objsA))
         res["stats"]["results_in_store"] = len(au["targets"]); res["stats"]["blobs_in_store"] = len(au["cas"])
         res["stats"]["dangling"] = dangling
 
@@ -209,7 +216,8 @@ def run_e2e(out, tier, grog, harness, findings):
         jobs.append((i, kind, store_ws.gen_spec(r), r.next()))
     base = os.path.join(vlib.scratch(), "c08e2e")
     os.makedirs(base, exist_ok=True)
-    stats = {k: {"histories": 0, "dangling": 0, "remote_complete": 0, "b_executed_nothing": 0, "b_failed": 0, "b_gets": 0} for k in kinds}
+    stats = {k: {"histories": 0, "dangling": 0, "remote_complete": 0, "b_executed_nothing": 0, "b_failed": 0, "b_gets": 0,
+                 "local_only_before": 0, "local_only_uploaded": 0, "unmirrored_results": 0, "unmirrored_blobs": 0} for k in kinds}
     with ThreadPoolExecutor(max_workers=16) as ex:
         futs = [ex.submit(e2e_history, i, kind, spec, sd, grog, harness, base, findings) for (i, kind, spec, sd) in jobs]
         for f in futs:
@@ -221,6 +229,8 @@ def run_e2e(out, tier, grog, harness, findings):
             st["b_executed_nothing"] += 1 if res["stats"].get("b_executed") == 0 else 0
             st["b_failed"] += 1 if res["stats"].get("b_rc") not in (0, None) else 0
             st["b_gets"] += res["stats"].get("b_gets", 0)
+            for key in ("local_only_before", "local_only_uploaded", "unmirrored_results", "unmirrored_blobs"):
+                st[key] += res["stats"].get(key, 0)
             for what, rp in res["violations"]:
                 out.violation(what, rp)
             for fid, text in res["known"]:
